@@ -201,7 +201,7 @@ def run_scenario(vrace, s, idx):
         env["FROZEN_CONCURRENCY"] = ""
     t0 = time.time()
     try:
-        outs, rc, err = run_harness(vrace, "c11", s["cases"], timeout=900, env=env)
+        outs, rc, err = run_harness(vrace, "c11", s["cases"], timeout=1800, env=env, stall=120)
     except subprocess.TimeoutExpired:
         outs, rc, err = {}, -9, "scenario timed out"
     text = ""
